@@ -1,4 +1,7 @@
 ------------------------------ MODULE MC_Laws ------------------------------
-EXTENDS PaneLaws, Json, IOUtils
+EXTENDS PaneLaws, PaneDispatch, Json, IOUtils
 LoadedFacts == JsonDeserialize(IOEnv.PANE_FACTS)
+(* the model of make_converter's dispatch picks, for every type of the grammar graph, the converter class that *)
+(* implements the case the required semantics uses for that type                                               *)
+DispatchMatchesKinds == RootMatches(ty)
 =============================================================================
